@@ -161,3 +161,25 @@ def model_replay_validate(chk, module, cfg, name, pids, flavour="asan-ubsan", wo
     if lines:
         chk.sample({"observed_move": json.loads(lines[len(lines) // 2])}, limit=8)
     shutil.rmtree(d, ignore_errors=True)
+
+
+def small_scope(chk, pid, nontrivial_all, cfg=None):
+    """spec -> code -> spec: every circuit of the LegalizeCases scope legalized twice by the real code."""
+    import shutil
+    cfg = cfg or "LegalizeCases_" + chk.tier
+    d = vlib.scratch(pid + "-emit")
+    out = os.path.join(d, "cases.out")
+    res = vlib.tlc_ok(vlib.tlc("LegalizeCases", cfg=cfg, workers=16, stdout_path=out, timeout=3000, xmx="16g"), cfg)
+    if res["violated"]:
+        raise vlib.FrameworkError("LegalizeCases: contract operators inconsistent: %s" % res["violated"])
+    chk.add_tlc(res, "tlc enumeration of the small legalization scope (" + cfg + ")")
+    results, d2, allruns, exe = tracecheck.cases_and_validate(chk, "asan-ubsan", "record", out, cfg, module="TraceCircuit", extra_args=["timeout=60"])
+    tracecheck.attribute(chk, results, pid, exe, "leg", "asan-ubsan", d2)
+    nontrivial_all(chk, allruns)
+    for evs in allruns.values():
+        if any(e["e"] == "EndThrow" for e in evs):
+            chk.cov["small_scope_throws"] = chk.cov.get("small_scope_throws", 0) + 1
+    shutil.rmtree(d, ignore_errors=True)
+    shutil.rmtree(d2, ignore_errors=True)
+
+
